@@ -11,7 +11,7 @@
 use crate::front::Project;
 use crate::rng::Rng;
 
-const MAX_TRIPS: usize = 120;
+const MAX_TRIPS: usize = 4000;
 
 #[derive(Clone, Copy, PartialEq, Debug)]
 enum Cmp {
@@ -83,7 +83,15 @@ fn pick_spec(rng: &mut Rng, wild: bool) -> LoopSpec {
   let cmp = *rng.pick(&[Cmp::Lt, Cmp::Le, Cmp::Gt, Cmp::Ge, Cmp::Ne, Cmp::Lt, Cmp::Gt, Cmp::Le, Cmp::Ge, Cmp::Eq]);
   let stride = *rng.pick(strides);
   let start = rng.pick(anchors).wrapping_add(rng.range(-3, 3) as i32);
-  let trips = rng.below(40) as i32;
+  // mostly short loops; some run long enough to survive the unrolling of their first iterations
+  let trips = match rng.below(10) {
+    0..=6 => rng.below(40),
+    7 | 8 => 100 + rng.below(300),
+    _ => 1000 + rng.below(2000),
+  } as i32;
+  // either the start or the bound sits at an anchor; the other end follows from the trip count
+  let bound_anchored = rng.chance(1, 2);
+  let start = if bound_anchored { rng.pick(anchors).wrapping_add(rng.range(-3, 3) as i32).wrapping_sub(stride.wrapping_mul(trips)) } else { start };
   // aim the bound so that the guard fails after about `trips` iterations when the direction fits
   let mut bound = start.wrapping_add(stride.wrapping_mul(trips));
   if !matches!(cmp, Cmp::Ne | Cmp::Eq) && rng.chance(1, 2) {
